@@ -203,7 +203,9 @@ func (p *Protocol) ReadRequest(
 
 	// If we fail to read two bytes, the only possible valid value is the
 	// empty struct.
-	if count, _ := r.Read(buf[0:2]); count < 2 {
+	// A single Read may legitimately return fewer bytes than requested even
+	// when more are available, so read until we have both bytes or hit EOF.
+	if count, _ := io.ReadFull(r, buf[0:2]); count < 2 {
 		sr := p.Reader(bytes.NewReader(buf[:count]))
 		defer sr.Close()
 		return NoEnvelopeResponder, body.Decode(sr)
